@@ -169,7 +169,7 @@ func genFrame(t *rapid.T, cd gen.Codecs, key bool, serial *uint32, b *sizeBudget
 			add([]byte{6}, nalLenSmall(t, b))
 		}
 	}
-	nslices := rapid.SampledFrom([]int{1, 1, 1, 2, 2, 3, 4}).Draw(t, "nslices")
+	nslices := rapid.SampledFrom([]int{1, 1, 1, 1, 2, 2, 2, 3, 4, 12}).Draw(t, "nslices")
 	if !key && len(nals) > 0 && rapid.IntRange(0, 19).Draw(t, "noSlices") == 0 {
 		return nals // a message holding only AUD / parameter sets / SEI
 	}
